@@ -156,6 +156,7 @@ func (tree *Tree[T]) Clean(prefix string) {
 	}
 
 	tree.node.clean(prefix)
+	tree.recountMethods()
 }
 
 // Remove 移除路由项
@@ -204,7 +205,7 @@ func (tree *Tree[T]) Remove(pattern string, methods ...string) {
 		child = child.parent
 	}
 
-	tree.buildMethods(-1, methods...)
+	tree.recountMethods()
 }
 
 // 获取指定的节点，若节点不存在，则在该位置生成一个新节点。
